@@ -68,6 +68,16 @@ def generate(rng, tier):
                                         # set on the instance after the merged data exist, cutting into them: the workflow steps act on the merged data as stored
                                         (q[1] + 0.001, None), (None, q[-2]), (q[1], q[-2])]),
                       "desc": {"ops": " ".join(seq), "fn": SL.FNS[i % 3], "lowq": bool((i // 3) % 2) if i >= 9 else bool(i % 2), "n_ops": len(seq), "r0_is_0": r0 == 0.0}})
+    # the real-space function is changed on a live object between steps (with the curve titles left alone or relabelled by the
+    # user beforehand): every step after the change acts for the function selected then
+    base = [c for c in cases if len(c["dr"]) >= 3][:6]
+    for j, c in enumerate(base):
+        a, b = j % 3, (j + 1 + j // 3) % 3
+        if a == b:
+            b = (a + 1) % 3
+        cases.append(dict(c, kind="switch", fn=a, fn2=b, custom_title=bool(j % 2), first=["T", "F"][(j // 2) % 2], ops=[],
+                          desc={"ops": "switch", "fn": SL.FNS[a], "fn2": SL.FNS[b], "custom_title": bool(j % 2), "lowq": c["lowq"], "n_ops": 3,
+                                "r0_is_0": c["dr"][0] == 0.0}))
     return cases
 
 
@@ -99,7 +109,24 @@ def snapshot(st):
     return out
 
 
+def run_switch(pystog, case):
+    st = make_stog(pystog, case)
+    if case["custom_title"]:
+        st.gr_title = "my g(r) curve"
+    if case["first"] == "T":
+        st.transform_merged()
+    else:
+        st.fourier_filter()
+    st.real_space_function = SL.FNS[case["fn2"]]
+    out_f = [np.asarray(a, float).tolist() for a in st.fourier_filter()]
+    st.transform_merged()
+    out_t = [np.asarray(st.r_master[st.gr_title], float).tolist(), np.asarray(st.gr_master[st.gr_title], float).tolist()]
+    return {"switch": {"filter": out_f, "transform": out_t}}
+
+
 def run_impl(pystog, case):
+    if case.get("kind") == "switch":
+        return run_switch(pystog, case)
     st = make_stog(pystog, case)
     steps = []
     filt = None
@@ -147,7 +174,7 @@ def run_impl(pystog, case):
 
 
 def to_coq(case, res):
-    if "exception" in res:
+    if "exception" in res or case.get("kind") == "switch":
         return None
     m = case["mat"]
     encs = []
@@ -163,6 +190,8 @@ def to_coq(case, res):
 
 
 def nontrivial(case, res):
+    if case.get("kind") == "switch":
+        return "exception" not in res
     return "exception" not in res and len(res["steps"]) > 0
 
 
@@ -174,6 +203,20 @@ def oracle(pystog, case, res):
         return "raised %s: %s (ops %s)" % (res["exception"], res["message"], " ".join(case["ops"]))
     m = case["mat"]
     tr, ff, cv = pystog.Transformer(), pystog.FourierFilter(), pystog.Converter()
+    if case.get("kind") == "switch":
+        fn2 = SL.FNS[case["fn2"]].replace("(r)", "")
+        q, sq, dr = np.array(case["q"], float), np.array(case["sq"], float), np.array(case["dr"], float)
+        r0, g0, _ = getattr(tr, "S_to_" + fn2)(q, sq, dr, **{"lorch": False, "rho": m["rho"], "<b_coh>^2": m["bcoh"]})
+        fk = {"lorch": False, "rho": m["rho"], "<b_coh>^2": m["bcoh"], "OmittedXrangeCorrection": case["lowq"]}
+        fo = getattr(ff, fn2 + "_using_S")(r0, g0, q, sq, case["cutoff"], **fk)
+        want = [np.around(fo[2], 2), np.around(fo[3], 16), fo[4], fo[5]]
+        got = res["switch"]
+        if not all(np.array_equal(np.asarray(a, float), np.asarray(b, float), equal_nan=True) for a, b in zip(got["filter"], want)):
+            return "after real_space_function was changed from %s to %s (%s, first step %s) fourier_filter differs from FourierFilter.%s_using_S on the merged data" % (
+                SL.FNS[case["fn"]], SL.FNS[case["fn2"]], "curve title relabelled beforehand" if case["custom_title"] else "default titles", case["first"], fn2)
+        if not (np.array_equal(np.asarray(got["transform"][0], float), r0) and np.array_equal(np.asarray(got["transform"][1], float), g0, equal_nan=True)):
+            return "after real_space_function was changed to %s transform_merged differs from Transformer.S_to_%s on the merged data" % (SL.FNS[case["fn2"]], fn2)
+        return None
     fn = SL.FNS[case["fn"]].replace("(r)", "")
     q, sq, dr = np.array(case["q"], float), np.array(case["sq"], float), np.array(case["dr"], float)
     r0, g0, _ = getattr(tr, "S_to_" + fn)(q, sq, dr, **{"lorch": False, "rho": m["rho"], "<b_coh>^2": m["bcoh"]})
